@@ -2,9 +2,9 @@ SPECIFICATION Spec
 CONSTANTS
   EmitOn = FALSE
   Mode = "mc"
-  IPSets <- IP5x2
-  FnW <- FW2x2
-  FnB <- FB2x1
+  IPSets <- IPq
+  FnW <- FWq
+  FnB <- FBq
   AuthModes <- Au2
   MaxCfgs = 1
   MaxReqs = 0
@@ -13,5 +13,5 @@ CONSTANTS
   GLock = TRUE
   Lvl = 1
 VIEW view
-INVARIANTS TypeOK MechSoundJ MechSoundG EthSame EthSound RefNonTrivial RefTable
+INVARIANTS MechSoundStream
 CHECK_DEADLOCK FALSE
